@@ -96,3 +96,17 @@ def KF_C18_empty_image_viewer_restore(div):
         return False
     st = b['steps'][div.step]['st']
     return not st['layers']
+
+
+def KF_C02_joinlink_then_join_on_key(div):
+    """A JoinLink helper and a later join_on_key between the same two datasets: the restore brings the helper's join back."""
+    b = div.behaviour
+    if b.get('spec') != 'Session':
+        return False
+    ops = [(s['act']['op'], s['act'].get('s')) for s in b['steps'][:div.step + 1]]
+    if ('AddLink', 'JoinLink') not in ops:
+        return False
+    k = ops.index(('AddLink', 'JoinLink'))
+    if not any(op == 'AddJoin' for op, _ in ops[k + 1:]):
+        return False
+    return div.component.startswith('restored/groups/') or div.component.startswith('restored/data/')
